@@ -242,6 +242,24 @@ func c09(run *ev.Run, tier string) {
 	run.Set("script_bytes_compared", bytesCompared)
 	run.Set("subsets_per_format", map[string]int{"deb": 128, "rpm": 128, "apk": 64, "archlinux": 64, "ipk": 16})
 	run.Assume("rpm header strings cannot carry NUL bytes, so rpm bodies are NUL-free; an empty rpm scriptlet may be absent")
+
+	// the command line tool with the packager guessed from the target's extension
+	// ships the scripts the format's override block configures
+	if bin := nfpmBin(run); bin != "" {
+		cliGuessedPackager(run, bin, "C09", func(f string, named, guessed []byte) {
+			p := dec.Decode(f, guessed, false)
+			for k, want := range map[int]string{1: "echo post " + f, 2: "echo prerm " + f} {
+				sd := slotTable[f][k]
+				b, ok := slotBytes(f, p, sd.slot)
+				if len(p.Errs) > 0 || !ok || !bytes.Contains(b, []byte(want)) {
+					run.Violate("C09/cli/"+f+"/slot-missing-or-different/packager-guessed-from-target-extension", map[string]any{"slot": sd.slot, "configured": "overrides." + f + "." + sd.cfg, "present": ok, "bytes": ev.Short(string(b), 120)})
+				}
+			}
+			if !bytes.Equal(named, guessed) {
+				run.Violate("C09/cli/"+f+"/package-differs/packager-guessed-from-target-extension", map[string]any{"len_named": len(named), "len_guessed": len(guessed)})
+			}
+		})
+	}
 }
 
 func allBodies(m map[string][]byte) []byte {
